@@ -51,6 +51,10 @@ def code_objects(objs):
             add(o.__func__)
         elif isinstance(o, types.FunctionType):
             add_code(o.__code__)
+        elif isinstance(o, types.ModuleType):
+            for v in vars(o).values():
+                if getattr(v, "__module__", None) == o.__name__ and isinstance(v, (types.FunctionType, type)):
+                    add(v)
         elif isinstance(o, type):
             for v in vars(o).values():
                 if isinstance(v, (types.FunctionType, staticmethod, classmethod, property)):
